@@ -104,6 +104,15 @@ CHECKS = {
         note=TRUST + "Pure-ASCII output for all inputs, re-decodability and language equality are not decided.",
         technique="static analysis: constant propagation of the dispatch, interval reading of range constants, must-pass-through on the literal printer",
     ),
+    "C06": dict(
+        category="other",
+        text="Structural clauses: on every verbose path each character ignored under (?x) is rewritten to an escape denoting exactly that character; the "
+             "(?x)/(?ix) header is exact; in each group-printing function one boolean decides the group kind on all paths; value-flow provenance shows "
+             "that every capture / line-break / colour / escape / surrogate site can only receive its own setting (no crossed positional flags).",
+        design_ref="DESIGN.md §4 C06",
+        note=TRUST + "Language equality under each option is not decided; the indenter's content preservation is assumed.",
+        technique="static analysis: constant propagation with string templates (loops over constant arrays unrolled), interprocedural value-flow provenance",
+    ),
 }
 
 NOT_APPLICABLE = {
